@@ -56,7 +56,9 @@ pub fn run(tier: &str) -> Result<Report, String> {
         // closed formula over all nine binary operators that uses EW or AW, one node less
         {
             use crate::formulas::Bi;
-            let mut ga = Gen::new(Alphabet::all_ops(ctx.nprops(), 3));
+            let mut aa = Alphabet::all_ops(ctx.nprops(), 3);
+            aa.consts = vec![true, false];
+            let mut ga = Gen::new(aa);
             fs.extend(ga.closed_up_to(m - 1).into_iter().filter(|f| f.has_op_bi(Bi::EW) || f.has_op_bi(Bi::AW)));
         }
         let n_size = fs.len();
